@@ -37,6 +37,7 @@ def alphabet(tier):
     ops.append(("remove",))
     ops.append(("init",))
     ops.append(("reverse",))
+    ops.append(("queries",))  # every read-only helper (queries without filter, chart data builders, printing) called once: nothing may change
     ops.append(("simu", 2))  # simulate(unit_time=2): an option of simulate() like any other
     return ops
 
@@ -163,6 +164,8 @@ def apply_op(m, op, bad):
             p.initialize()
         elif kind == "reverse":
             p.reverse_log_information()
+        elif kind == "queries":
+            runner.read_only_calls(p)
     finally:
         bootstrap.clear_observer()
 
